@@ -209,7 +209,7 @@ def evaluate(case) -> Result:
                 open_socks = [s for s in w.net.open_sockets()]
                 if open_socks:
                     res.v("C18/sockets-open-after-stop", f"stop() returned with open sockets: {open_socks[:4]}")
-                if w.node.tcp_sockets and any(not s.closed for s in w.node.tcp_sockets):
+                if any(not s.closed for s in list(w.node.tcp_sockets) + list(w.node.sctp_sockets)):
                     res.v("C18/listener-open-after-stop", "listening socket not closed")
             if returned_at is not None and w.k.now >= returned_at + 6:
                 break
